@@ -299,27 +299,27 @@ def check_C02(tier, seed):
                           leaf_full=24 if nv == 2 else 16)
         if quick:
             progs = _sample(rng, progs, min(len(progs), 2500))
-        elif len(progs) > 60000:
-            progs = _sample(rng, progs, 60000)
+        elif len(progs) > 30000:
+            progs = _sample(rng, progs, 30000)
             run.exhaustive = False
         if nv == 2:
             # every tree of three join conditions (and/or in both shapes): de-duplication across branches needs three leaves
             three = run.export("GenQuery", "G2-3leaves", "PROG", constants=dict(G="G12", NV=2, LeafLimit=6 if quick else 9, MaxLeaves=3,
                                                                                  MaxNot=0, NeedNot=False), invariants=("Export", "WellFormed"))
             three = [p for p in three if count_nodes(p["cond"], "cmp") + count_nodes(p["cond"], "in") == 3]
-            three = rng.sample(three, min(len(three), 1500 if quick else 40000))
+            three = rng.sample(three, min(len(three), 1500 if quick else 15000))
             progs += three + three          # each on two worlds: the interesting cases depend on the enumeration order of the data
             # a conjunction as the first operand of a disjunction with a projected selection: duplicate suppression of the
             # conjunction's false outputs decides whether the other branch is tried - several worlds each
             shaped = [p for p in three if p["cond"]["k"] == "or" and p["cond"]["l"]["k"] == "and"
                       and p["desc"] == "entity"]
-            progs += shaped * (6 if quick else 10)
+            progs += shaped * 6
             # left-deep chains of four conditions: and_/or_ nested under and_/or_ (what an operator requires of its child
             # is passed down through every level)
             deep = run.export("GenQuery", "G2n-bfs", "PROG", constants=dict(G="G2n", NV=2, LeafLimit=4 if quick else 6, MaxLeaves=4,
                                                                           MaxNot=0, NeedNot=False), invariants=("Export", "WellFormed"))
             deep = [p for p in deep if count_nodes(p["cond"], "cmp") == 4]
-            progs += rng.sample(deep, min(len(deep), 1500 if quick else 30000))
+            progs += rng.sample(deep, min(len(deep), 1500 if quick else 12000))
         for p in progs:
             for _ in range(1 if quick else 2):
                 W, doms = _world_and_doms(rng, nv, quick)
